@@ -325,9 +325,9 @@ unsigned MessageBase::move_legal(MessageBase *to, bool force)
 	{
 		if (pp._field_traits & FieldTrait::present && (force || (to->_fp.has(pp._fnum) && !to->_fp.get(pp._fnum))))
 		{
-			if (pp._field_traits & FieldTrait::group)
+			auto gitr(_groups.find(pp._fnum));
+			if (pp._field_traits & FieldTrait::group && gitr != _groups.end())	// count field may come without a group object
 			{
-				auto gitr(_groups.find(pp._fnum));
 				GroupBase *gb1(to->find_group(pp._fnum));
 				if (gb1)
 					delete to->replace(pp._fnum, gitr->second);
